@@ -221,7 +221,7 @@ def n_cases(tier):
 def gen_case(rng, tier, index):
     if rng.random() < 0.06:
         return {"same_name_pair": True, "device": rng.choice(["evo", "fluent"]), "max_volume": rng.choice([950, 200, 100]),
-                "opseed": rng.getrandbits(32)}
+                "opseed": rng.getrandbits(32), "twins": rng.random() < 0.5}
     vclass = rng.choice(["int", "quarter", "cent", "dirty"])
     wl = gen.gen_worklist_cfg(rng)
     wl["max_volume"] = rng.choice([950, 200, 100, 50, 1000, 2.3, 333.3, 3.92, 12.7])
@@ -247,12 +247,22 @@ def _same_name_pair(ctx, case):
     for lw in (A, B):
         for i in range(rng.randint(1, 3)):
             lw.add("A01", 1.0 + i, label=f"earlier {i}")
-    pre = {id(x): snap(x) for x in (A, B)}
     n = rng.randint(1, 4)
     ids = ["A01", "B01", "A02", "B02"][:n]
     vols = [rng.choice([10.0, 25.5, case["max_volume"] * 2.5, 0.0]) for _ in ids]
     if not any(v > 0 for v in vols):
         vols[0] = 12.0
+    if case.get("twins"):
+        # two plates of one kind that are, after the transfer, filled alike in every well
+        ctx.count("same_name_pair_filled_alike_afterwards")
+        A = robotools.Labware("plate", 2, 3, min_volume=0, max_volume=1e5, initial_volumes=500.0)
+        B = robotools.Labware("plate", 2, 3, min_volume=0, max_volume=1e5, initial_volumes=500.0)
+        for w, v in zip(ids, vols):
+            A.add(w, 2 * v, label="ahead")
+        for i in range(rng.randint(0, 2)):
+            A.add("B03", 1.0 + i, label=f"earlier {i}")
+            B.add("B03", 1.0 + i, label=f"earlier {i}")
+    pre = {id(x): snap(x) for x in (A, B)}
     exc = None
     try:
         wl.transfer(A, ids, B, ids, vols, label="pair")
